@@ -38,10 +38,37 @@ theorem isKeyword_upper (v : Text) :
   simp only [isKeyword, defaultCfg]
   rfl
 
-/-- **case invariance**: two ASCII texts that are equal up to the case of ASCII letters get the same type from `is_keyword` -/
-theorem isKeyword_case_invariant (w w' : Text) (hw : ∀ c ∈ w, c < 128) (hw' : ∀ c ∈ w', c < 128)
+/-- two code points with the same ASCII fold are equal or are the two cases of one ASCII letter -/
+theorem fold_eq_cases (a b : Nat) (h : asciiFold a = asciiFold b) : a = b ∨ (a < 128 ∧ b < 128) := by
+  unfold asciiFold at h
+  split at h <;> split at h <;> omega
+
+theorem strUpper1_fold (a b : Nat) (h : asciiFold a = asciiFold b) : strUpper1 a = strUpper1 b := by
+  rcases fold_eq_cases a b h with rfl | ⟨ha, hb⟩
+  · rfl
+  · rw [strUpper1_ascii a ha, strUpper1_ascii b hb, h]
+
+theorem upperText_fold : ∀ (w' w : Text), w'.map asciiFold = w.map asciiFold → upperText strUpper1 w' = upperText strUpper1 w := by
+  intro w'
+  induction w' with
+  | nil => intro w h; cases w with
+    | nil => rfl
+    | cons _ _ => simp at h
+  | cons a t ih =>
+    intro w h
+    cases w with
+    | nil => simp at h
+    | cons b u =>
+      simp only [List.map_cons, List.cons.injEq] at h
+      have := ih u h.2
+      simp only [upperText, List.flatMap_cons] at this ⊢
+      rw [strUpper1_fold a b h.1, this]
+
+/-- **case invariance**: two texts that are equal up to the case of ASCII letters (any other code points allowed, as long as they are
+the same in both) get the same type from `is_keyword` -/
+theorem isKeyword_case_invariant (w w' : Text)
     (h : w'.map asciiFold = w.map asciiFold) : isKeyword defaultCfg w' = isKeyword defaultCfg w := by
-  rw [isKeyword_upper, isKeyword_upper, upperText_ascii w hw, upperText_ascii w' hw', h]
+  rw [isKeyword_upper, isKeyword_upper, upperText_fold w' w h]
 
 theorem asciiFold_idem (c : Nat) : asciiFold (asciiFold c) = asciiFold c := by
   unfold asciiFold
@@ -55,14 +82,10 @@ theorem asciiFold_lt (c : Nat) (h : c < 128) : asciiFold c < 128 := by
   unfold asciiFold; split <;> omega
 
 /-- in particular the upper-cased spelling classifies like the original -/
-theorem isKeyword_upper_spelling (w : Text) (hw : ∀ c ∈ w, c < 128) :
+theorem isKeyword_upper_spelling (w : Text) :
     isKeyword defaultCfg (w.map asciiFold) = isKeyword defaultCfg w := by
-  apply isKeyword_case_invariant w _ hw
-  · intro c hc
-    simp only [List.mem_map] at hc
-    obtain ⟨x, hx, rfl⟩ := hc
-    exact asciiFold_lt x (hw x hx)
-  · simp [List.map_map, Function.comp_def, asciiFold_idem]
+  apply isKeyword_case_invariant w _
+  simp [List.map_map, Function.comp_def, asciiFold_idem]
 
 /-! ## (b) the word rule -/
 
